@@ -794,6 +794,8 @@ package ugo
 //@ loop 0 step[andjumpT@C02] prev(vm.curInsts[vm.ip+1]) == byte(OpAndJump) && prev(specIsBoolValue(vm.stack[vm.sp-1], true)) ==> vm.sp == prev(vm.sp)-1 && vm.ip == prev(vm.ip)+5
 //@ loop 0 step[orjumpT@C02] prev(vm.curInsts[vm.ip+1]) == byte(OpOrJump) && prev(specIsBoolValue(vm.stack[vm.sp-1], true)) ==> vm.sp == prev(vm.sp) && vm.ip == prev(specOperand32(vm.curInsts, vm.ip+2))-1 && vm.stack[vm.sp-1] == prev(vm.stack[vm.sp-1])
 //@ loop 0 step[orjumpF@C02] prev(vm.curInsts[vm.ip+1]) == byte(OpOrJump) && prev(specIsBoolValue(vm.stack[vm.sp-1], false)) ==> vm.sp == prev(vm.sp)-1 && vm.ip == prev(vm.ip)+5
+//@ loop 0 step[equal@C15] prev(vm.curInsts[vm.ip+1]) == byte(OpEqual) && prev(specNumOrBool(vm.stack[vm.sp-2]) && specNumOrBool(vm.stack[vm.sp-1])) ==> vm.sp == prev(vm.sp)-1 && vm.ip == prev(vm.ip)+1 && vm.stack[vm.sp-1] == Object(Bool(prev(specEq(vm.stack[vm.sp-2], vm.stack[vm.sp-1]))))
+//@ loop 0 step[notequal@C15] prev(vm.curInsts[vm.ip+1]) == byte(OpNotEqual) && prev(specNumOrBool(vm.stack[vm.sp-2]) && specNumOrBool(vm.stack[vm.sp-1])) ==> vm.sp == prev(vm.sp)-1 && vm.ip == prev(vm.ip)+1 && vm.stack[vm.sp-1] == Object(Bool(!prev(specEq(vm.stack[vm.sp-2], vm.stack[vm.sp-1]))))
 //@ loop 0 step[jump@C02] prev(vm.curInsts[vm.ip+1]) == byte(OpJump) ==> vm.sp == prev(vm.sp) && vm.ip == prev(specOperand32(vm.curInsts, vm.ip+2))-1
 //@ loop 0 step[return@C02] prev(vm.curInsts[vm.ip+1]) == byte(OpReturn) ==> vm.frameIndex == prev(vm.frameIndex)-1 && vm.curFrame == &vm.frames[vm.frameIndex-1] && vm.ip == prev(vm.frames[vm.frameIndex-2].ip) && vm.sp == prev(specReturnBase(vm.curFrame.basePointer, vm.curFrame.fn.NumLocals))
 //@ loop 0 step[returnvalue@C02] prev(vm.curInsts[vm.ip+1]) == byte(OpReturn) && prev(vm.curInsts[vm.ip+2]) == 1 ==> vm.stack[vm.sp-1] == prev(vm.stack[vm.sp-1])
@@ -816,7 +818,7 @@ package ugo
 //@ panics vmPanicPoint(vm)
 //@ modifies *
 //@ property C06
-//@ stepproperty C12 C02 C03
+//@ stepproperty C12 C02 C03 C15
 
 // ---------------------------------------------------------------------------
 // C05: the emitter. MakeInstruction reports an operand that does not fit its
